@@ -186,7 +186,12 @@ theorem fcore_recvAny (v : Pairing) (ca cb : Cfg) (f f' : Fwd) (hi : FCore f)
           obtain rfl := Option.some.inj h
           exact fcore_of_view _ _ rfl (keep f.ph (by simp [hph, Phase.curKind]) (by simp [hph, Phase.inMsg])
             (by simp [hph, Phase.rel]) (by simp [ho]) (by simp [ho]))
-    · simp at h
+    · split at h
+      · obtain rfl := Option.some.inj h
+        obtain ⟨hc, hm, hr⟩ := hi
+        rw [hph] at hc hm hr
+        exact ⟨hc, hm, hr⟩
+      · simp at h
   · simp at h
 
 theorem fcore_recvChunk (v : Pairing) (ca cb : Cfg) (f f' : Fwd) (hi : FCore f) (hra : RInv f.a)
